@@ -133,6 +133,10 @@ class EncoderLayout:
                 return self._bits_or(self.vdesc(n.left), self.vdesc(n.right))
             if isinstance(n.op, ast.LShift):
                 ok2, s = self.fold(n.right)
+                if ok2 and ((isinstance(n.left, ast.Name) and n.left.id in getattr(self, "testvals", {}))
+                            or isinstance(n.left, (ast.Compare, ast.BoolOp))):
+                    # a truth value shifted into place (hasUser << 7): the bit is set exactly when the test holds
+                    return ("bits", 0, ((("const", 1 << int(s)), 0, self._guard_text(n.left)),))
                 if ok2:
                     return ("bits", 0, ((self.vdesc(n.left), int(s), None),))
             if isinstance(n.op, ast.Mult):
